@@ -369,4 +369,62 @@ def r3_line_index_exhaustive(a, tier):
     return rep
 
 
-RULES = [r0_line_splitter, r1_parseinfo, r2_one_index, r3_line_index_exhaustive]
+def r4_delivery(a, tier):
+    from ..minieval import Obj, Unsupported
+    from ..modelinterp import Bound, Hook, ModelInterp, Stub
+    rep = RuleReport(
+        'C12.R4',
+        'delivery of the parse information: set_parseinfo(node, name, pos), interpreted on stand-in nodes, hands the ParseInfo it built '
+        'to a node that offers set_parseinfo() (the dict-like AST: the class defines it and stores the value under the key its parseinfo '
+        'property reads), assigns it to a node that has a parseinfo attribute (model nodes), and leaves every other value alone; with '
+        'parse information off nothing is delivered',
+        floor=4,
+    )
+    ENGINE = 'tatsu.contexts.engine.ParserEngine'
+    fn = a.ct.lookup(ENGINE, 'set_parseinfo')
+    if fn is None:
+        raise AnalysisError('ParserEngine.set_parseinfo not found')
+    PI = ('PARSEINFO',)
+    for what, pi in (('parseinfo on', PI), ('parseinfo off', None)):
+        got: list = []
+        with_method = Stub('tatsu.contexts.ast.AST', set_parseinfo=Hook(lambda v: got.append(('method', v))))
+        with_attr = Stub('tatsu.objectmodel.node.Node', parseinfo=None)
+        plain = 'text'
+        for label, node in (('node with set_parseinfo()', with_method), ('node with a parseinfo attribute', with_attr), ('a plain string', plain)):
+            me = Stub(ENGINE, make_parseinfo=Hook(lambda name, pos: pi))
+            it = ModelInterp(a, {'hasattr': Hook(lambda o, n: isinstance(o, Stub) and n in o._attrs)})
+            try:
+                it.call_bound(Bound(me, fn), [node, 'rule', 3], {})
+            except Unsupported as e:
+                raise AnalysisError(f'C12.R4: cannot interpret set_parseinfo: {e}') from e
+            if node is with_method:
+                delivered = got[-1][1] if got else None
+            elif node is with_attr:
+                delivered = with_attr._attrs.get('parseinfo')
+            else:
+                delivered = None
+            want = pi if node is not plain else None
+            ok = delivered == want
+            rep.add({'config': what, 'node': label, 'delivered': repr(delivered), 'want': repr(want), 'ok': ok})
+            if not ok:
+                rep.fail(fn.qualname, f'delivery:{what}:{label}', f'set_parseinfo with {what} on a {label} delivers {delivered!r}; required {want!r}', fn.loc)
+            got.clear()
+    # the AST side: set_parseinfo stores under the key the parseinfo property reads
+    astc = a.p.classes.get('tatsu.contexts.ast.AST')
+    setter = astc.methods.get('set_parseinfo') if astc else None
+    getter = astc.methods.get('parseinfo') if astc else None
+    if setter is None or getter is None:
+        rep.fail('tatsu.contexts.ast.AST', 'delivery:ast-api', 'AST no longer defines set_parseinfo() and the parseinfo property', astc.loc if astc else None)
+    else:
+        stored = {n.args[0].value for n in ast.walk(setter.node) if isinstance(n, ast.Call) and isinstance(n.func, ast.Attribute) and n.func.attr == '__setitem__'
+                  and n.args and isinstance(n.args[0], ast.Constant)}
+        read = {n.args[0].value for n in ast.walk(getter.node) if isinstance(n, ast.Call) and isinstance(n.func, ast.Attribute) and n.func.attr in ('get', '__getitem__')
+                and n.args and isinstance(n.args[0], ast.Constant)} | {n.slice.value for n in ast.walk(getter.node) if isinstance(n, ast.Subscript) and isinstance(n.slice, ast.Constant)}
+        ok = bool(read) and read <= stored
+        rep.add({'AST.set_parseinfo_stores': sorted(stored), 'AST.parseinfo_reads': sorted(read), 'ok': ok})
+        if not ok:
+            rep.fail(setter.qualname, 'delivery:ast-keys', f'AST.set_parseinfo stores under {sorted(stored)} but AST.parseinfo reads {sorted(read)}', setter.loc)
+    return rep
+
+
+RULES = [r0_line_splitter, r1_parseinfo, r2_one_index, r3_line_index_exhaustive, r4_delivery]
